@@ -531,7 +531,7 @@ def _enum_loops():
 def gen_cases(rng, tier, ctx):
     g = G(rng)
     cases = []
-    n_prog, n_loop = (700, 250) if tier == 'quick' else (20000, 5000)
+    n_prog, n_loop = (580, 200) if tier == 'quick' else (20000, 5000)
     for i in range(n_prog):
         cases.append(g.prog_case(rng.choice([1, 2, 2, 3, 3, 4] if tier == 'quick' else [1, 2, 2, 3, 3, 4, 4, 5])))
     for i in range(n_loop):
@@ -596,7 +596,7 @@ def gen_cases(rng, tier, ctx):
         k += 1
     # round 3: aliasing / repeated calls / rebound loop index / coinciding and swapped names / a parameter called t
     C = sys.modules[__name__]
-    n_share, n_rebind, n_rename, n_tparam = (90, 60, 60, 25) if tier == 'quick' else (2500, 1500, 1500, 400)
+    n_share, n_rebind, n_rename, n_tparam = (80, 50, 50, 20) if tier == 'quick' else (2500, 1500, 1500, 400)
     fam = ([R.gen_share(rng, g, C) for _ in range(n_share)] + [R.gen_rebind(rng, g, C) for _ in range(n_rebind)]
            + [R.gen_rename(rng, g, C) for _ in range(n_rename)] + [R.gen_tparam(rng, g, C) for _ in range(n_tparam)])
     cases.extend(fam)
@@ -604,7 +604,7 @@ def gen_cases(rng, tier, ctx):
         cases.append(dict(c, kind='trace', twice=False))
     # round 4: coinciding window triples at every merge point; the same object under different contexts / after other calls
     gc = R4.make_gc(C, rng)
-    n_coin, n_ctx, n_cloop, n_crw, n_cflat = (150, 90, 60, 30, 12) if tier == 'quick' else (4000, 2500, 1500, 800, 300)
+    n_coin, n_ctx, n_cloop, n_crw, n_cflat = (130, 80, 50, 30, 12) if tier == 'quick' else (4000, 2500, 1500, 800, 300)
     fam4 = [R4.gen_coincide(rng, g, C, gc, k) for k in range(n_coin)] + [R4.gen_context(rng, g, C) for _ in range(n_ctx)]
     cases.extend(fam4)
     for c in fam4[::8 if tier == 'quick' else 4]:
